@@ -58,12 +58,35 @@ class Builtins:
         if name.startswith("fold:"):
             fn, sort = f.fold  # type: ignore
             return self.wrap_leaf(fn(self.as_int(args[0], node, fr)), sort)
+        if name.startswith("gfold:"):
+            sort, init, step = self.engine.global_folds[name[6:]]
+            seq = self.as_str(args[0], node, fr)
+            return self.wrap_leaf(self.gfold_fn(name[6:], sort)(seq.t, self.as_int(args[1], node, fr)), sort)
         if name.startswith("helper:"):
             raise Unsupported(f"helper {name} used as a value")
         h = getattr(self, "bi_" + name.replace(".", "_"), None)
         if h is None:
             raise Unsupported(f"builtin {name}")
         return h(args, kwargs, node, fr)
+
+    def gfold_fn(self, name: str, sort: str) -> Any:
+        zs = {"bool": z3.BoolSort(), "int": z3.IntSort(), "str": SEQ}[sort]
+        return z3.Function("gfold_" + name, SEQ, z3.IntSort(), zs)
+
+    def gfold_instantiate(self, name: str, seq_t: Any, i: Any, elem: V, fr: Frame, at_zero: bool) -> None:
+        """Definitional axioms of a global prefix fold over a string, instantiated at index ``i``."""
+        sort, init, step = self.engine.global_folds[name]
+        f = self.gfold_fn(name, sort)
+        if at_zero:
+            iv = self.eval_spec(init, fr)
+            self.path.add_fact(f(seq_t, 0) == self.leaf_term(iv))
+            return
+        lam = self.parse_spec(step)
+        child = Frame(fr.module, None, {}, fr, fr.extra_modules)
+        child.in_spec = True
+        child.env[lam.args.args[0].arg] = self.wrap_leaf(f(seq_t, i), sort)
+        child.env[lam.args.args[1].arg] = elem
+        self.path.add_fact(f(seq_t, i + 1) == self.leaf_term(self.ev(lam.body, child)))
 
     # ------------------------------------------------------------------- builtins
     def bi_len(self, args, kwargs, node, fr) -> V:
@@ -310,16 +333,17 @@ class Builtins:
         if view[0] == "concrete":
             raise Unsupported("unexpected concrete view")
         n_term, get = view[1], view[2]
-        j = z3.Int(self.path.fresh_name("$q"))
-        child = Frame(gen.frame.module, None, {}, gen.frame, gen.frame.extra_modules)
-        child.in_spec = True
-        self.assign_target(comp.target, get(j), child, node)
-        conds = [self.truthy(self.ev(c, child)) for c in comp.ifs]
-        body = self.truthy(self.ev(g.elt, child))
-        rng = z3.And(j >= 0, j < n_term, *conds)
-        if is_all:
-            return VBool(z3.ForAll([j], z3.Implies(rng, body)))
-        return VBool(z3.Exists([j], z3.And(rng, body)))
+        def fn(j: Any) -> Any:
+            child = Frame(gen.frame.module, None, {}, gen.frame, gen.frame.extra_modules)
+            child.in_spec = True
+            self.assign_target(comp.target, get(j), child, node)
+            conds = [self.truthy(self.ev(c, child)) for c in comp.ifs]
+            body = self.truthy(self.ev(g.elt, child))
+            if not conds:
+                return body
+            return z3.Implies(z3.And(*conds), body) if is_all else z3.And(*conds, body)
+
+        return VBool(self.mk_quant(z3.IntVal(0), n_term, fn, "q", is_all))
 
     def bi_all(self, args, kwargs, node, fr) -> V:
         if isinstance(args[0], VLambda):
@@ -541,10 +565,7 @@ class Builtins:
             ts = []
             for a in alts:
                 p = self.as_str(a, node, fr)
-                if name == "startswith":
-                    ts.append(z3.PrefixOf(p.t, s.t))
-                else:
-                    ts.append(z3.SuffixOf(p.t, s.t))
+                ts.append(self.rope_affix(s, p, name == "startswith"))
             return VBool(z3.Or(*ts) if len(ts) > 1 else ts[0])
         if name == "join":
             return self.str_join(s, args[0], node, fr)
@@ -592,6 +613,48 @@ class Builtins:
             f = z3.Function("str_" + name, SEQ, z3.BoolSort())
             return VBool(f(s.t))
         raise Unsupported(f"str method {name}")
+
+    def rope_affix(self, s: VStr, p: VStr, prefix: bool) -> Any:
+        """s.startswith(p) / s.endswith(p), peeling concrete rope parts before asking the seq theory."""
+        sp = list(s.parts) if prefix else list(reversed(s.parts))
+        pp = list(p.parts) if prefix else list(reversed(p.parts))
+
+        def term_of(parts: List[Any]) -> Any:
+            ps = parts if prefix else list(reversed(parts))
+            return VStr(ps).t
+
+        while sp and pp:
+            a, b = sp[0], pp[0]
+            if isinstance(a, str) and isinstance(b, str):
+                n = min(len(a), len(b))
+                if prefix:
+                    if a[:n] != b[:n]:
+                        return z3.BoolVal(False)
+                    a2, b2 = a[n:], b[n:]
+                else:
+                    if a[len(a) - n:] != b[len(b) - n:]:
+                        return z3.BoolVal(False)
+                    a2, b2 = a[:len(a) - n], b[:len(b) - n]
+                sp = ([a2] if a2 else []) + sp[1:]
+                pp = ([b2] if b2 else []) + pp[1:]
+                continue
+            if not isinstance(a, str) and not isinstance(b, str) and a.get_id() == b.get_id():
+                sp, pp = sp[1:], pp[1:]
+                continue
+            if isinstance(b, str) and len(b) == 1 and len(pp) == 1 and not isinstance(a, str):
+                # one character against a symbolic part: reason on the character, not on sequences
+                c = ord(b)
+                la = z3.Length(a)
+                ch = a[0] if prefix else a[la - 1]
+                rest = self.rope_affix(VStr(sp[1:] if prefix else list(reversed(sp[1:]))), self.pystr(b), prefix)
+                return z3.Or(z3.And(la > 0, ch == c), z3.And(la == 0, rest))
+            break
+        if not pp:
+            return z3.BoolVal(True)
+        if not sp:
+            return VStr(pp).t == z3.Empty(SEQ) if not all(isinstance(x, str) for x in pp) else z3.BoolVal(False)
+        st, pt = term_of(sp), term_of(pp)
+        return z3.PrefixOf(pt, st) if prefix else z3.SuffixOf(pt, st)
 
     def from_py(self, r: Any) -> V:
         if isinstance(r, bool):
@@ -823,18 +886,12 @@ def _quant(it: Any, node: ast.Call, fr: Frame, is_all: bool) -> V:
     hi = it.as_int(it.ev(node.args[1], fr), node, fr)
     lam = node.args[2]
     assert isinstance(lam, ast.Lambda)
-    j = z3.Int(it.path.fresh_name("$" + lam.args.args[0].arg))
-    child = Frame(fr.module, None, {lam.args.args[0].arg: VInt(j)}, fr, fr.extra_modules)
-    child.in_spec = True
-    rng = z3.And(j >= lo, j < hi)
-    it.path.temps.append(rng)
-    try:
-        body = it.truthy(it.ev(lam.body, child))
-    finally:
-        it.path.temps.pop()
-    if is_all:
-        return VBool(z3.ForAll([j], z3.Implies(rng, body)))
-    return VBool(z3.Exists([j], z3.And(rng, body)))
+    def fn(j: Any) -> Any:
+        child = Frame(fr.module, None, {lam.args.args[0].arg: VInt(j)}, fr, fr.extra_modules)
+        child.in_spec = True
+        return it.truthy(it.ev(lam.body, child))
+
+    return VBool(it.mk_quant(lo, hi, fn, lam.args.args[0].arg, is_all))
 
 
 def h_forall(it: Any, node: ast.Call, fr: Frame) -> V:
@@ -897,7 +954,35 @@ def h_is_kind(it: Any, node: ast.Call, fr: Frame) -> V:
     return it.bi_isinstance([it.ev(node.args[0], fr), it.ev(node.args[1], fr)], {}, node, fr)
 
 
+def h_pred(it: Any, node: ast.Call, fr: Frame) -> V:
+    """pred("name", x, ...): an uninterpreted predicate over object identities / ints / strings."""
+    nm = node.args[0].value  # type: ignore
+    ts = []
+    for a in node.args[1:]:
+        v = it.ev(a, fr)
+        if isinstance(v, VOpt):
+            v = v.val
+        ts.append(it.key_term(v) if not isinstance(v, VExt) else v.ident)
+    f = z3.Function("pred_" + nm, *[t.sort() for t in ts], z3.BoolSort())
+    return VBool(f(*ts))
+
+
+def h_final(it: Any, node: ast.Call, fr: Frame) -> V:
+    """final(name): value of a local variable of the function at its exit (postconditions only)."""
+    f: Optional[Frame] = fr
+    while f is not None:
+        fe = getattr(f, "final_env", None)
+        if fe is not None:
+            nm = node.args[0].value  # type: ignore
+            if nm in fe:
+                return fe[nm]
+            raise Unsupported(f"final({nm!r}): no such local at exit")
+        f = f.parent
+    raise Unsupported("final() outside a postcondition")
+
+
 HELPERS: Dict[str, Callable[..., V]] = {
+    "pred": h_pred, "final": h_final,
     "implies": h_implies, "forall": h_forall, "exists": h_exists, "old": h_old, "written": h_written,
     "appended": h_appended, "appended_count": h_appended_count, "is_kind": h_is_kind,
 }
